@@ -567,6 +567,120 @@ class LoopbackCase(Case):
         return {}
 
 
+class PipeCase(Case):
+    """The real _JSONPipeCommunicator on a model of a non-blocking FIFO pair: os.write accepts at most as many bytes
+    as the pipe has room for (a symbolic capacity) and reports how many it took; the reader drains the pipe whenever
+    it polls.  A message that write() reported as sent must arrive complete, and both sides retry as ropt's loops
+    do (write until True, read until not None) - within a bounded number of polls, i.e. without hanging."""
+
+    family = "external-process/pipe"
+
+    def __init__(self, cid, nitems=12, drain_every=1):
+        self.id, self.nitems, self.drain_every = cid, nitems, drain_every
+        self.message = {"evaluation": {"variables": [round(0.125 * i, 3) for i in range(nitems)], "return_functions": True,
+                                       "return_gradients": False}}
+
+    def describe(self):
+        import json
+        return f"one message of {len(json.dumps(self.message)) + 11} bytes through a FIFO with symbolic capacity; reader polls every {self.drain_every} write attempts"
+
+    def inputs(self, env):
+        # capacity in units of 16 bytes: 1..16 (16 bytes .. 256 bytes); the message is longer than the small ones
+        return {"cap": env.integer("capacity_16", 1, 16)}
+
+    def run(self, env, inp):
+        import io
+        import pathlib
+
+        import ropt.plugins.optimizer.external as X
+
+        cap = 16 * int(inp["cap"])
+        pipe = {"buf": bytearray(), "fds": {}, "next": 10}
+
+        class FakeOs:
+            O_RDONLY, O_WRONLY, O_NONBLOCK = 0, 1, 2048
+
+            def __getattr__(self, k):
+                return getattr(__import__("os"), k)
+
+            def mkfifo(self, path):
+                return None
+
+            def open(self, path, flags):
+                pipe["next"] += 1
+                pipe["fds"][pipe["next"]] = (str(path), flags & 1)
+                return pipe["next"]
+
+            def close(self, fd):
+                return None
+
+            def dup(self, fd):
+                return fd
+
+            def write(self, fd, data):
+                room = cap - len(pipe["buf"])
+                if room <= 0:
+                    raise BlockingIOError
+                n = min(room, len(data))
+                pipe["buf"] += bytes(data[:n])
+                return n
+
+            def fdopen(self, fd, mode="r", encoding=None):
+                data = bytes(pipe["buf"])
+                pipe["buf"].clear()              # whatever is in the pipe is consumed by this reader
+                return io.StringIO(data.decode(encoding or "utf-8"))
+
+        class FakeSelector:
+            def __init__(self):
+                self.reg = []
+
+            def register(self, fd, ev):
+                self.reg.append((fd, ev))
+
+            def close(self):
+                pass
+
+            def select(self, timeout=None):
+                out = []
+                for fd, ev in self.reg:
+                    if ev == 1 and len(pipe["buf"]) > 0:
+                        out.append((None, 1))
+                    if ev == 2 and len(pipe["buf"]) < cap:
+                        out.append((None, 2))
+                return out
+
+        class FakeSelectors:
+            EVENT_READ, EVENT_WRITE = 1, 2
+            DefaultSelector = FakeSelector
+            BaseSelector = FakeSelector
+
+        old = (X.os, X.selectors)
+        X.os, X.selectors = FakeOs(), FakeSelectors
+        try:
+            a, b = pathlib.Path("/nonexistent/fifo_a"), pathlib.Path("/nonexistent/fifo_b")
+            with X._JSONPipeCommunicator(b, a) as writer, X._JSONPipeCommunicator(a, b) as reader:
+                sent, got, polls = False, None, 0
+                while got is None and polls < 200:
+                    polls += 1
+                    if not sent:
+                        sent = bool(writer.write(self.message))
+                    if polls % self.drain_every == 0:
+                        got = reader.read()
+                return {"sent": sent, "got": got, "polls": polls}
+        finally:
+            X.os, X.selectors = old
+
+    def props(self, env, inp, oc):
+        if not oc.ok:
+            return [("no_internal_exception:" + type(oc.exc).__name__, SB(False))]
+        o = oc.value
+        return [("message_arrives_within_the_bounded_schedule", SB(o["got"] is not None)),
+                ("message_arrives_complete", SB(o["got"] is None or o["got"] == self.message))]
+
+    def observe(self, env, inp, oc):
+        return {}
+
+
 class FlagsCase(Case):
     """The external wrapper must advertise exactly the capabilities of the wrapped in-process optimizer
     (allow_nan, is_parallel): they decide how ropt treats failed evaluations and batches, hence whether the
@@ -630,6 +744,12 @@ def build_cases(tier):
                dict(script=((0, True, True),), abort_at=0)):
         k += 1
         cases.append(LoopbackCase(f"c20-{k:03d}", **kw))
+    k += 1
+    cases.append(PipeCase(f"c20-{k:03d}", nitems=12))
+    k += 1
+    cases.append(PipeCase(f"c20-{k:03d}", nitems=2))
+    k += 1
+    cases.append(PipeCase(f"c20-{k:03d}", nitems=20, drain_every=3))
     if tier == "thorough":
         add(nevals=4)
         add(nevals=4, error_at=2)
@@ -641,7 +761,7 @@ META = dict(
     bounds={"quick": "protocols of 3-4 messages (config, initial values, 1-2 evaluations or a child error); the child dies after any number of exchanged messages with return code 1, -9 or 3, or never; the callback raises (its own exception, or ropt's OptimizationAborted) at any evaluation or never; 0-2 failed writes and 0-1 empty reads per message",
             "thorough": "4 evaluations",
             "outside": "trace equality with in-process runs; real FIFOs, signals and timing; hangs beyond 400 polls"},
-    stubs=["subprocess.Popen / process.poll / wait: follow the symbolic life schedule", "_JSONPipeCommunicator: read() hands out the scripted protocol messages, write() succeeds after a symbolic number of failures",
+    stubs=["PipeCase: os.open/write/fdopen/dup/close and selectors model a non-blocking FIFO pair of symbolic capacity (16..256 bytes); os.write takes what fits and says how much", "subprocess.Popen / process.poll / wait: follow the symbolic life schedule", "_JSONPipeCommunicator: read() hands out the scripted protocol messages, write() succeeds after a symbolic number of failures",
            "os.kill (ProcessLookupError when the child is dead), time.sleep, atexit.register"],
     assumptions=["the child follows ropt's own protocol (_PluginOptimizer): it waits for an answer to each request, exits 0 after a normal run or an abort, 1 after reporting an error"],
 )
